@@ -277,5 +277,81 @@ def r13_5(ctx):
     return r
 
 
+SENTQ_TY = "u32, transports::sctp::ChunkRecord"
+ORDER_API = ("next", "next_back", "first_key_value", "last_key_value", "first_entry", "last_entry", "pop_first", "pop_last", "range",
+             "range_mut", "rev", "split_off", "last", "min", "max", "nth", "peekable", "take", "skip", "take_while", "skip_while")
+# reviewed order/position dependent accesses to the TSN-keyed sent queue: (function, method) -> why it is wrap safe
+SENTQ_ORDER_OK = {
+    ("transports::sctp::oldest_outstanding_tsn", "next"): "the helper that turns map order into serial order (first key, then the first key >= first + 2^31)",
+    ("transports::sctp::oldest_outstanding_tsn", "range"): "same helper",
+    ("transports::sctp::apply_sack_to_sent_queue", "range"): "gap block [s, e]: queried as s..=e when s <= e, else split into s.. and ..=e (roll-over handled explicitly)",
+    ("transports::sctp::SctpInner::update_advanced_peer_ack_point", "range"): "range(head..) chained with range(..head), head = oldest_outstanding_tsn: serial order",
+    ("transports::sctp::SctpInner::handle_timeout", "for..break"): "existence test (any record with an expired T3): sets a flag and leaves the loop, independent of order",
+    ("transports::sctp::SctpInner::maybe_send_tlp_probe", "rev"): "picks some outstanding chunk as the tail-loss probe; any outstanding chunk is a valid probe",
+}
+
+
+def r13_6(ctx):
+    """sent_queue is a BTreeMap keyed by the raw u32 TSN: its order is not TSN order while the outstanding TSNs
+    straddle the 2^32 roll-over. Head/tail/range style accesses are therefore confined to a reviewed list; a
+    whole-map sweep (for-loop without early exit) is order independent and always allowed."""
+    r = RuleResult("R13.6", "K3", "no map-order dependent access to the TSN-keyed sent queue outside the reviewed list")
+    n = 0
+    for b in ctx.facts.bodies(prefix="transports::sctp::"):
+        if "::tests::" in b.name:
+            continue
+        loops = None
+        for bi, t, p in b.calls():
+            if not p or not t["a"] or t["a"][0].get("k") not in ("cp", "mv"):
+                continue
+            ty = b.locals[t["a"][0]["p"]["l"]]["ty"]
+            if SENTQ_TY not in ty:
+                continue
+            m = p.split("::")[-1]
+            if m not in ORDER_API:
+                continue
+            fn = b.name.split("::{closure")[0]
+            if m == "next" and t["sp"]["x"] == "d:ForLoop":
+                # a for-loop over the map: order matters only if the loop can be left early
+                if loops is None:
+                    loops = b.loops()
+                mine = [blocks for h, blocks in loops if bi in blocks]
+                if not mine:
+                    continue
+                blocks = min(mine, key=len)
+                early = []
+                for x in blocks:
+                    for tgt, _ in b.succ_edges(x):
+                        if tgt not in blocks and b.blocks[tgt]["t"]["k"] != "unreachable" and not _is_iter_none_exit(b, x, tgt, bi):
+                            early.append((x, tgt))
+                if not early:
+                    continue
+                m = "for..break"
+                key = (fn, m)
+            else:
+                key = (fn, m)
+            n += 1
+            if key in SENTQ_ORDER_OK:
+                r.ok({"site": b.where(bi), "access": m, "reviewed": SENTQ_ORDER_OK[key][:80]})
+            else:
+                r.violate(b.name, "order:%s" % m, b.where(bi),
+                          "map-order dependent access (%s) to the TSN-keyed sent queue: the first/last/neighbouring key is not the "
+                          "oldest/newest/next TSN while the outstanding TSNs straddle the 2^32 roll-over" % m)
+    r.need("order dependent sent-queue accesses", n, 6)
+    return r
+
+
+def _is_iter_none_exit(b, x, tgt, next_bi):
+    """edge x->tgt is the `None` edge of the switch on the result of the iterator next() call in block next_bi"""
+    if b.blocks[x]["t"]["k"] != "switch":
+        return False
+    term, outs = b.switch_info(x)
+    nt = b.term_call(b.blocks[next_bi]["t"])
+    for tg, _, meaning in outs:
+        if tg == tgt and meaning == "None" and term[0] == "discr" and term[1] == nt:
+            return True
+    return False
+
+
 def run(ctx):
-    return [r13_1(ctx), r13_2(ctx), r13_3(ctx), r13_4(ctx), r13_5(ctx)]
+    return [r13_1(ctx), r13_2(ctx), r13_3(ctx), r13_4(ctx), r13_5(ctx), r13_6(ctx)]
